@@ -183,7 +183,7 @@ fn g_sort_by_key<T: Pod, L: PL>(buf: &mut [u8]) -> Res<Vec<u8>> {
 }
 /// more than 20 elements with ties under the sort key: the visible slice must be what a Vec gives
 /// (stable), also after re-opening read-only
-fn stable_sort_scenarios(rep: &mut Report, rng: &mut Rng, count: usize) {
+fn stable_sort_scenarios(rep: &mut Report, rng: &mut Rng, count: usize, n_coq: usize) {
     for k in 0..count {
         let ei = [0usize, 1, 2][k % 3];
         let li = rng.below(NPREF as u64) as usize;
@@ -193,14 +193,17 @@ fn stable_sort_scenarios(rep: &mut Report, rng: &mut Rng, count: usize) {
         let mut big = vec![0u64; 600]; // 8-aligned backing
         let bytes: &mut [u8] = bytemuck::cast_slice_mut(&mut big);
         let buf = &mut bytes[..n];
+        let init_bytes = buf.to_vec();
         if dispatch!(ei, li, g_init(buf)) != Res::Ok((0, cap)) {
             continue;
         }
+        let mut items: Vec<String> = vec![format!("LOp LInit (ROk (blob 0 0)) {}", cksum(buf))];
         let len = rng.range(21, cap as u64) as usize;
         let mut model: Vec<Vec<u8>> = Vec::new();
         for _ in 0..len {
             let item = rng.bytes(szt);
             let _ = dispatch!(ei, li, g_push(buf, &item));
+            items.push(format!("LOp (LPush {}) (ROk (blob 0 0)) {}", emit::blob(&item), cksum(buf)));
             model.push(item);
         }
         let got = dispatch!(ei, li, g_sort_by_key(buf));
@@ -211,7 +214,13 @@ fn stable_sort_scenarios(rep: &mut Report, rng: &mut Rng, count: usize) {
         rep.monitor_runs += 1;
         if got != Res::Ok(want.clone()) || reopened != Res::Ok(want.clone()) {
             rep.violate("sort-with-ties", "after sort_by with a key on which elements tie, the visible slice is not what a vector holds (std's sort_by is stable)",
-                serde_json::json!({"elem": ELEM_NAMES[ei], "prefix": PREF_NAMES[li], "elements": len, "observed": format!("{:?}", got.map(|b| emit::hex(&b))), "expected": emit::hex(&want)}).to_string());
+                serde_json::json!({"elem": ELEM_NAMES[ei], "prefix": PREF_NAMES[li], "elements": len, "observed": format!("{:?}", got.clone().map(|b| emit::hex(&b))), "expected": emit::hex(&want)}).to_string());
+        }
+        if k < n_coq {
+            // the model sorts with its own stable insertion sort (proved stable: C09_sort_by_key_stable)
+            items.push(format!("LOp LSortKey {} {}", got.clone().map(|_| Vec::<u8>::new()).emit(|v| emit::blob(v)), cksum(buf)));
+            items.push(format!("QVisible {}", reopened.clone().map(|b| (b.len() / szt.max(1), b)).emit(|(c, b)| format!("({}, {})", c, cksum(b)))));
+            rep.case(format!("CLv {} {} [\n  {}\n ] {} {}", emit_params(ei, li, 0), emit::blob(&init_bytes), items.join(";\n  "), cksum(buf), buf.len()), true);
         }
     }
 }
@@ -563,7 +572,7 @@ pub fn run_c09(ctx: &Ctx) -> Report {
     let mut rng = Rng::new(ctx.seed.wrapping_mul(131).wrapping_add(9));
     boundary_u16(&mut rep, "C09");
     boundary_capacity(&mut rep);
-    stable_sort_scenarios(&mut rep, &mut rng, ctx.scale(150, 1500));
+    stable_sort_scenarios(&mut rep, &mut rng, ctx.scale(150, 1500), ctx.scale(30, 300));
     // size_of: exactness and overflow
     for ei in 0..NELEM {
         for li in 0..NPREF {
